@@ -1,8 +1,10 @@
 package zv
 
 import (
+	"fmt"
 	"go/token"
 	"go/types"
+	"os"
 	"regexp"
 	"sort"
 	"strings"
@@ -231,6 +233,14 @@ func discoverBWS(c *Ctx, bws *types.Named) (r bwsRoles, ok bool) {
 				if sc := g.Call.StaticCallee(); sc != nil {
 					if rn := RecvNamed(sc); rn != nil && rn.Obj() == bws.Obj() {
 						r.loop, r.loopGo = sc, g
+					} else if sc.Parent() == fn {
+						// go func() { …; s.loop() }(): the literal is the goroutine's body (the method it calls inline)
+						r.loop, r.loopGo = sc, g
+					}
+				} else if mk, isMk := g.Call.Value.(*ssa.MakeClosure); isMk {
+					// go func() { …; s.loop() }(): the literal is the goroutine's body (the method it calls inline)
+					if lit, isF := mk.Fn.(*ssa.Function); isF {
+						r.loop, r.loopGo = lit, g
 					}
 				}
 			}
@@ -379,6 +389,9 @@ func discoverBWS(c *Ctx, bws *types.Named) (r bwsRoles, ok bool) {
 			r.latchField, r.latchVal = cd.path, stoppedV
 			lifeOK = true
 		}
+	}
+	if os.Getenv("ZV_DEBUG12") != "" {
+		fmt.Fprintf(os.Stderr, "bws roles: mu=%q writer=%q ticker=%q stop=%q done=%q init=%q stopped=%q lifeOK=%v initFn=%v loop=%v chans=%d wg=%v\n", r.mu, r.writer, r.ticker, r.stop, r.done, r.initialized, r.stopped, lifeOK, r.initFn, r.loop, len(chans), r.doneWG)
 	}
 	ok = r.mu != "" && r.writer != "" && r.ticker != "" && r.stop != "" && r.done != "" && lifeOK && r.initFn != nil && r.loop != nil && (len(chans) == 2 && !r.doneWG || len(chans) == 1 && r.doneWG)
 	return r, ok
@@ -548,10 +561,8 @@ func c12Rules(c *Ctx, r1, r2, r3, r4, r5 string) {
 		callers := c.CallersOf(FStr(initFn))
 		allHeld := len(callers) > 0
 		for _, cl := range callers {
-			h := MustHeld(cl.Parent(), nil)
-			if Eligible(cl.Parent()) {
-				h = MustHeldCtx(cl.Parent()) // a helper: what every one of its callers holds counts
-			}
+			// (a helper: what every one of its callers holds counts; a literal run by a locking helper: what that holds)
+			h := MustHeld(cl.Parent(), EntryLockset(cl.Parent()))
 			m := Desc(Args(cl)[0]) + "." + roles.mu
 			ok := h[cl][m] == 1
 			// by exploring the caller in each life-cycle state: the initialiser runs exactly when the syncer was not
@@ -649,7 +660,7 @@ func c12Rules(c *Ctx, r1, r2, r3, r4, r5 string) {
 				slot = "stopped" // what is written after Stop is still buffered: a Sync must flush it all the same
 			}
 			seqs, trunc := ConcPaths(sync, ConcCfg{
-				InitFields: ls.initFields(sync.Params[0]), Conc: ls.conc(recvN), Fork: ls.fork(roles),
+				InitFields: ls.initFields(sync.Params[0]), Conc: ls.conc(recvN), Fork: ls.fork(roles), IterClosures: true, MaxIter: 1,
 				Event: func(in ssa.Instruction, st *ConcState) string {
 					switch x := in.(type) {
 					case *ssa.Call:
@@ -979,7 +990,7 @@ func c12Stop(c *Ctx, rule string, roles bwsRoles, stop *ssa.Function) {
 				init = 0
 			}
 			seqs, trunc := ConcPaths(stop, ConcCfg{
-				InitFields: ls.initFields(recv), Conc: ls.conc(rn), Fork: ls.fork(roles),
+				InitFields: ls.initFields(recv), Conc: ls.conc(rn), Fork: ls.fork(roles), IterClosures: true, MaxIter: 1,
 				Inline: func(h *ssa.Function) bool { return FNm(h) != "Sync" },
 				Branch: func(cond ssa.Value, taken bool, st *ConcState) string {
 					// a nil test of the done channel: it is created together with the initialised flag (R12.1:
@@ -1176,7 +1187,7 @@ func c12Write(c *Ctx, rule string, roles bwsRoles, write *ssa.Function) {
 		return "", false
 	}
 	seqs, trunc := ConcPaths(write, ConcCfg{
-		InitFields: roles.state("running").initFields(write.Params[0]), Conc: roles.state("running").conc(recv),
+		InitFields: roles.state("running").initFields(write.Params[0]), Conc: roles.state("running").conc(recv), IterClosures: true, MaxIter: 1,
 		Fork: func(in ssa.Instruction, st *ConcState) []ConcAlt {
 			if cl, ok := in.(*ssa.Call); ok && IsCallTo(cl, "(*bufio.Writer).Flush") {
 				return []ConcAlt{{Ev: "flush-ok", Nils: map[ssa.Value]bool{cl: true}}, {Ev: "flush-failed", Nils: map[ssa.Value]bool{cl: false}}}
